@@ -542,7 +542,7 @@ where
                             format!("Unterminated quote: {q}"),
                         ));
                     }
-                    if i == 0 {
+                    if result.is_empty() {
                         return Ok(None);
                     }
                     pending.clear();
